@@ -6,7 +6,6 @@ import (
 	"encoding/json"
 	"fmt"
 	"os"
-	"sort"
 	"time"
 
 	"verifsim/core"
@@ -44,8 +43,9 @@ func (e *engine) Run(env *core.Env, run int, res *core.Result) *core.Violation {
 	env.J.Done()
 
 	res.Steps += int64(s.step)
-	res.SimNs += int64(s.totalTicks) * 100e6
-	for k, v := range s.faults { // addition commutes: order is irrelevant
+	res.SimNs += int64(s.maxTicks()) * 100e6 // one tick = 100 ms notional
+	// map order is irrelevant here: addition commutes
+	for k, v := range s.faults {
 		res.Fault(k, v)
 	}
 	for k, v := range s.probes {
@@ -150,14 +150,4 @@ func (e *engine) Minimise(env *core.Env, c *core.Case) *core.Case {
 	out.Message = s.viol.msg
 	out.Trace = lastLines(s.trace, 60)
 	return &out
-}
-
-// sortedKeys is for callers that need map keys in a stable order.
-func sortedKeys(m map[string]int64) []string {
-	ks := make([]string, 0, len(m))
-	for k := range m {
-		ks = append(ks, k)
-	}
-	sort.Strings(ks)
-	return ks
 }
